@@ -95,7 +95,7 @@ def damp_of(grid):
 
 def gen_sim(rng, N):
     """dyadic similarity matrix (multiples of 1/16 in [-1, 1]); returns (S0, tags)"""
-    levels = rng.choice([2, 3, 5, 9, 33])
+    levels = rng.choice([1, 2, 3, 5, 9, 33])
     pool = rng.sample(range(-16, 17), min(levels, 33))
     if rng.random() < 0.3:
         pool = [abs(p) for p in pool]
@@ -113,71 +113,142 @@ def gen_sim(rng, N):
     return S, {"sym": sym, "diag": diag, "levels": levels}
 
 
-def gen_threshold(rng, S):
-    r = rng.random()
-    vals = sorted(set(abs(float(v)) for v in S.flatten()))
-    if r < 0.45:
-        return rng.choice(vals)                      # tie with an entry
-    if r < 0.8:
-        return rng.randrange(-4, 36) / 32            # between entries, below 0, above 1
-    if r < 0.9:
-        return rng.choice(vals) + rng.choice([-1, 1]) / 64
-    return rng.choice([0.0, 1.0, -0.5, 2.0])
+def f32_exact(x):
+    return float(np.float32(x)) == float(x)
+
+
+def gen_threshold(rng, S, scale=1.0):
+    """threshold for similarities that are multiples of scale/16; float32-representable or far
+    (relatively) from every entry, so the float32 comparison of the implementation is decisive"""
+    vals = sorted(set(abs(float(v)) for v in np.asarray(S).flatten())) or [0.0]
+    while True:
+        r = rng.random()
+        if r < 0.4:
+            t = rng.choice(vals)                             # tie with an entry
+        elif r < 0.7:
+            t = scale * rng.randrange(-4, 36) / 32           # between entries, below 0, above 1
+        elif r < 0.8:
+            t = rng.choice(vals) + scale * rng.choice([-1, 1]) / 64
+        elif r < 0.88:
+            t = scale * rng.choice([0.0, 1.0, -0.5, 2.0])
+        elif r < 0.95:
+            t = scale * rng.uniform(-0.1, 1.1)               # arbitrary double
+        else:
+            t = rng.choice([2.0 ** 100, -2.0 ** 100, 2.0 ** -60, -2.0 ** -60, 3e-39, 1 / 3, 0.1])
+        # nearest value a similarity of this case can take (multiples of scale/16)
+        m = round(t / (scale / 16)) * (scale / 16)
+        if f32_exact(t) or abs(t - m) > 1e-5 * max(abs(m), abs(t)):
+            return t
 
 
 def gen_density(rng, N):
     M = max(N * (N - 1), 1)
     r = rng.random()
-    if r < 0.45:
+    if r < 0.4:
         return rng.randrange(0, M + 1) / M           # rho * M integral up to rounding
-    if r < 0.6:
+    if r < 0.55:
         return rng.choice([0.0, 1.0, 0.5, 0.25, 0.75])
-    if r < 0.7:
+    if r < 0.65:
         return rng.choice([0.1, 0.2, 0.3, 0.7, 0.9, 0.05, 0.95])
+    if r < 0.75:                                     # extreme but valid requests
+        return rng.choice([5e-324, 1e-300, 2.0 ** -53, 1 - 2.0 ** -53, 1 - 2.0 ** -52,
+                           0.5 - 2.0 ** -54, 0.5 + 2.0 ** -53, 1 / M, 1 - 1 / M,
+                           (M - 1) / M + 2.0 ** -53, 1 / 3, 2 / 3])
     return rng.random()
 
 
-def gen_ops(rng, S, N, length):
+def gen_ops(rng, S, N, length, scale=1.0, regen=None):
+    """`regen(rng)` -> value of a regeneration op (new similarity matrix, or a (knob, value)
+    pair of a subclass setter), None = no such ops"""
     ops = []
     for _ in range(length):
         r = rng.random()
-        if r < 0.4:
-            ops.append(("T", gen_threshold(rng, S)))
-        elif r < 0.75:
+        if regen is not None and r < 0.15:
+            ops.append(("R", regen(rng)))
+        elif r < 0.45:
+            ops.append(("T", gen_threshold(rng, S, scale)))
+        elif r < 0.78:
             ops.append(("D", gen_density(rng, N)))
         else:
             ops.append(("L", rng.random() < 0.6))
     return ops
 
 
-def enc_op(op):
+def enc_op(op, mats=None):
+    """`mats`: list collecting the similarity matrices of the regeneration ops (R:<k>)"""
     k, v = op
     if k == "T":
         return "T:" + enc_fr(fr(v))
     if k == "D":
-        return "D:" + str(bits(v))
+        return "D:" + enc_fr(fr(v))           # exact value of the double
+    if k == "R":
+        mats.append(v)
+        return "R:" + str(len(mats) - 1)
     return "L:" + ("1" if v else "0")
+
+
+def op_key(op):
+    k, v = op
+    if k == "R":
+        v = v if isinstance(v, tuple) else np.asarray(v).tobytes().hex()
+    return (k, v)
 
 
 # --------------------------------------------------------------------------
 # running the implementation
 # --------------------------------------------------------------------------
 
-def build(grid, S0, init, nl, directed):
+LAYOUTS = ["f64", "f64", "f32", "f64-fortran", "f32-view", "f64-readonly"]
+
+
+def as_caller_array(S0, layout):
+    """the caller's array in different float widths / memory layouts (values unchanged: the
+    test matrices are exact in float32)"""
+    S0_in, S0 = S0, np.asarray(S0, dtype=float)
+    if layout == "as-is":
+        return S0_in
+    if layout == "f32":
+        return S0.astype(np.float32)
+    if layout == "f64-fortran":
+        return np.asfortranarray(S0)
+    if layout == "f32-view":                      # non-contiguous view into a larger buffer
+        N = S0.shape[0]
+        big = np.full((2 * N, 2 * N), 7.0, dtype=np.float32)
+        big[::2, ::2] = S0
+        return big[::2, ::2]
+    A = S0.copy()
+    if layout == "f64-readonly":
+        A.setflags(write=False)
+    return A
+
+
+def build(grid, S0, init, nl, directed, layout="f64", keep=None):
     from pyunicorn.climate import ClimateNetwork
     kw = {"threshold": init[1]} if init[0] == "T" else {"link_density": init[1]}
-    return ClimateNetwork(grid, S0.copy(), non_local=nl, directed=directed,
+    arr = as_caller_array(S0, layout)
+    if keep is not None:
+        keep.append((arr, np.array(arr, dtype=float)))
+    return ClimateNetwork(grid, arr, non_local=nl, directed=directed,
                           silence_level=3, **kw)
 
 
 def apply_op(net, op):
+    """returns the raw similarity now in force when the op replaced it"""
     k, v = op
     if k == "T":
         net.set_threshold(v)
     elif k == "D":
         net.set_link_density(v)
+    elif k == "R":
+        if isinstance(v, tuple):          # subclass setter re-deriving the similarity from data
+            getattr(net, "set_" + v[0])(*v[1:])
+        else:                             # what those setters do, with a given matrix
+            net._similarity_measure = np.array(v, dtype=float)
+            net._regenerate_network()
+        return np.array(net.similarity_measure(), dtype=float)
     else:
         net.set_non_local(v)
+    return None
 
 
 def run_history(case):
@@ -185,6 +256,9 @@ def run_history(case):
     init, ops = case["init"], case["ops"]
     states, raw = [], []
     net = None
+    case["mats"] = []                      # similarity in force after each R op (model input)
+    case["held"] = []                      # caller arrays handed to the library + their copies
+    cur = case["S0"]
     for n, op in enumerate([init] + list(ops)):
         try:
             if n == 0:
@@ -193,13 +267,21 @@ def run_history(case):
                         net = case["builder"](init, case["nl"])
                     # the similarity this very object stores (estimators need not be
                     # reproducible, e.g. RainfallClimateNetwork: C10/C20's business)
-                    case["S0"] = np.array(net.similarity_measure(), dtype=float)
+                    case["S0"] = cur = np.array(net.similarity_measure(), dtype=float)
                     case["replay"]["stored_similarity"] = case["S0"].tolist()
                 else:
-                    net = build(case["grid"], case["S0"], init, case["nl"], case["directed"])
+                    net = build(case["grid"], case["S0"], init, case["nl"], case["directed"],
+                                case.get("layout", "f64"), case["held"])
             else:
                 with contextlib.redirect_stdout(io.StringIO()):
-                    apply_op(net, op)
+                    new = apply_op(net, op)
+                if new is not None:
+                    if not np.all(np.isfinite(new)):
+                        # the estimator produced inf/nan (C10's business): history not judged
+                        case["nonfinite"] = True
+                        break
+                    cur = new
+                    case["mats"].append(new)
         except Exception as e:  # noqa
             name = {"ZeroDivisionError": "ZeroDivision"}.get(type(e).__name__, type(e).__name__)
             states.append("raise:" + name)
@@ -208,7 +290,7 @@ def run_history(case):
         states.append(state_of(net))
         raw.append({"theta": fr(net.threshold()), "A": np.asarray(net.adjacency).copy(),
                     "n_links": int(net.n_links), "ld": float(net.link_density),
-                    "nl": bool(net.non_local()), "op": op})
+                    "nl": bool(net.non_local()), "op": op, "S": cur})
     return states, raw, net
 
 
@@ -219,18 +301,19 @@ def run_history(case):
 NEAR = 1e-4
 
 
-def near_tie(S0, d32, theta):
+def near_tie(S0, d32, theta, scale=1.0):
     """non-local decisions are exact only away from ties of the float32 product"""
     th = float(theta)
     W = np.abs(S0) * d32.astype(float)
     off = ~np.eye(S0.shape[0], dtype=bool)
     diff = np.abs(W - th)[off]
-    return bool(np.any((diff > 0) & (diff <= 1e-6 * max(abs(th), 1e-3))))
+    return bool(np.any((diff > 0) & (diff <= 1e-6 * max(abs(th), 1e-3 * scale))))
 
 
 def oracle_state(ctx, case, st, prev):
     """check one observed state; `case` carries S0 (float array of dyadics), d64, directed, tags"""
-    S0, d64, directed = case["S0"], case["d64"], case["directed"]
+    S0, d64, directed = st["S"], case["d64"], case["directed"]
+    scale = case.get("scale", 1.0)
     N = S0.shape[0]
     M = N * (N - 1)
     A, theta, nl = st["A"], st["theta"], st["nl"]
@@ -242,7 +325,7 @@ def oracle_state(ctx, case, st, prev):
         if extra:
             sig.update(extra)
         rep = dict(case["replay"], failing_state={
-            "after_op": list(st["op"]), "threshold": str(theta),
+            "after_op": op_repr(st["op"]), "threshold": str(theta),
             "adjacency": A.tolist(), "n_links": st["n_links"], "link_density": st["ld"]})
         ctx.fail(sig, what, rep)
 
@@ -256,7 +339,8 @@ def oracle_state(ctx, case, st, prev):
                 exp = int(absS[i][j] > theta)
             else:
                 w = float(absS[i][j]) * d64[i, j]
-                if abs(w - float(theta)) <= NEAR and w != float(theta):
+                if abs(w - float(theta)) <= NEAR * max(scale, abs(float(theta))) \
+                        and w != float(theta):
                     continue                      # not decisive in float32
                 exp = int(w > float(theta))
             if int(A[i, j]) != exp:
@@ -296,16 +380,24 @@ def oracle_state(ctx, case, st, prev):
                  f"threshold {theta} selected for density {float(rho)} is not one of the "
                  "similarity values", tag)
     # (e) raising the threshold only removes links
-    if prev is not None and prev["nl"] == nl and st["op"][0] in "TD":
+    if prev is not None and prev["nl"] == nl and st["op"][0] in "TD" and prev["S"] is st["S"]:
         lo, hi = (prev, st) if prev["theta"] <= theta else (st, prev)
         if np.any(hi["A"] > lo["A"]):
             fail("monotonicity", f"threshold {hi['theta']} >= {lo['theta']} but links were added")
 
 
+def op_repr(op):
+    k, v = op
+    if k == "R":
+        return ["R", list(v) if isinstance(v, tuple) else np.asarray(v).tolist()]
+    return [k, v]
+
+
 def oracle_twin(ctx, case, net, last):
-    """the object after its history equals a fresh object with the reported settings"""
+    """the object after its history equals a fresh object with the reported settings, built
+    from the similarity it was last given"""
     try:
-        twin = build(case["grid"], case["S0"], ("T", net.threshold()), bool(net.non_local()),
+        twin = build(case["grid"], last["S"], ("T", net.threshold()), bool(net.non_local()),
                      case["directed"])
     except Exception:  # noqa
         return
@@ -319,21 +411,38 @@ def oracle_twin(ctx, case, net, last):
 # --------------------------------------------------------------------------
 
 def ops_of(lst):
-    return [(k, bool(v) if k == "L" else float(v)) for k, v in lst]
+    out = []
+    for k, v in lst:
+        if k == "L":
+            out.append((k, bool(v)))
+        elif k == "R":
+            out.append((k, tuple(v) if isinstance(v[0], str) else np.array(v, dtype=float)))
+        else:
+            out.append((k, float(v)))
+    return out
 
 
 def make_case(rng, N, nops, fixed=None):
     if fixed is None:
         S0, tags = gen_sim(rng, N)
+        # extreme-but-exact rescaling: all similarities and thresholds times a power of two
+        scale = 2.0 ** rng.choice([0, 0, 0, 0, 1, -1, 7, -10, 24, -24, 60, -60])
+        S0 = S0 * scale
         grid = gen_grid(rng, N)
         directed = rng.random() < 0.4
         nl = rng.random() < 0.35
-        init = ("T", gen_threshold(rng, S0)) if rng.random() < 0.5 else \
+        layout = rng.choice(LAYOUTS)
+        init = ("T", gen_threshold(rng, S0, scale)) if rng.random() < 0.5 else \
             ("D", gen_density(rng, N))
-        ops = gen_ops(rng, S0, N, nops)
+
+        def regen(r):
+            return gen_sim(r, N)[0] * scale
+        ops = gen_ops(rng, S0, N, nops, scale, regen)
     else:
         from pyunicorn.core import GeoGrid
         S0 = np.array(fixed["similarity"], dtype=float)
+        scale = float(fixed.get("scale", 1.0))
+        layout = fixed.get("layout", "f64")
         tags = {"sym": bool(np.array_equal(S0, S0.T)), "diag": "replay", "levels": 0}
         grid = GeoGrid(np.arange(3.0), np.array(fixed["lat"], dtype=float),
                        np.array(fixed["lon"], dtype=float), silence_level=3)
@@ -342,8 +451,10 @@ def make_case(rng, N, nops, fixed=None):
     d32, d64 = damp_of(grid)
     replay = {"N": N, "similarity": S0.tolist(), "lat": grid.lat_sequence().tolist(),
               "lon": grid.lon_sequence().tolist(), "directed": directed, "non_local": nl,
-              "init": list(init), "ops": [list(o) for o in ops]}
+              "scale": scale, "layout": layout,
+              "init": list(init), "ops": [op_repr(o) for o in ops]}
     return {"S0": S0, "grid": grid, "d32": d32, "d64": d64, "directed": directed, "nl": nl,
+            "scale": scale, "layout": layout,
             "init": init, "ops": ops, "tags": tags, "replay": replay}
 
 
@@ -373,13 +484,17 @@ def gen_data(rng, nprng, N):
 # HilbertClimateNetwork(directed=True) is left out: by documented design it additionally masks
 # the thresholded matrix with the sign of the phase shift (a different link rule).
 SUBCLASSES = ["Tsonis", "Spearman", "PartialCorrelation", "MutualInfo", "Havlin",
-              "HilbertUndirected", "Rainfall", "CoupledTsonis", "Coupled", "CoupledDirected"]
+              "HilbertUndirected", "Rainfall", "CoupledTsonis", "Coupled", "CoupledDirected",
+              "EventSeriesES", "EventSeriesECA", "SmallTestNetwork"]
+# setters that re-derive the similarity from data and call _regenerate_network
+KNOBS = {"Tsonis": "winter_only", "Spearman": "winter_only", "PartialCorrelation": "winter_only",
+         "MutualInfo": "winter_only", "Havlin": "max_delay"}
 
 
 def make_subclass_case(rng, nprng, cls, nops, fixed=None):
     import pyunicorn.climate as C
     from pyunicorn.core import GeoGrid
-    directed = cls == "CoupledDirected"
+    directed = cls in ("CoupledDirected", "EventSeriesES", "EventSeriesECA")
     sim_in = None
     if fixed is None:
         N = rng.choice([3, 4, 5, 6])
@@ -418,7 +533,27 @@ def make_subclass_case(rng, nprng, cls, nops, fixed=None):
             return C.RainfallClimateNetwork(data, **kw)
         if cls == "CoupledTsonis":
             return C.CoupledTsonisClimateNetwork(data, data, **kw)
-        return C.CoupledClimateNetwork(grid, grid, sim_in.copy(), directed=directed, **kw)
+        if cls == "SmallTestNetwork":
+            net = C.ClimateNetwork.SmallTestNetwork()
+        elif cls.startswith("EventSeries"):
+            # always built with threshold 0; `symmetrization="directed"` keeps the asymmetric
+            # event synchronisation / coincidence strengths
+            ev = (T_obs > 0.8).astype(float)
+            edata = C.ClimateData(observable=ev, grid=grid, time_cycle=12, silence_level=3)
+            net = C.EventSeriesClimateNetwork(
+                edata, method=cls[len("EventSeries"):], taumax=3.0,
+                symmetrization="directed", non_local=nl, silence_level=3)
+        else:
+            return C.CoupledClimateNetwork(grid, grid, sim_in.copy(), directed=directed, **kw)
+        # objects that come with their own initial threshold: the requested initial setting is
+        # applied through the setters
+        if nl and not net.non_local():
+            net.set_non_local(True)
+        if init[0] == "T":
+            net.set_threshold(init[1])
+        else:
+            net.set_link_density(init[1])
+        return net
 
     try:
         with contextlib.redirect_stdout(io.StringIO()):
@@ -434,7 +569,20 @@ def make_subclass_case(rng, nprng, cls, nops, fixed=None):
         nl = rng.random() < 0.35
         init = ("T", f32(gen_threshold(rng, S0))) if rng.random() < 0.5 else \
             ("D", gen_density(rng, M))
-        ops = [(k, f32(v)) if k == "T" else (k, v) for k, v in gen_ops(rng, S0, M, nops)]
+        regen = None
+        if cls in KNOBS:
+            state = {"winter_only": False, "max_delay": 2}
+
+            def regen(r, knob=KNOBS[cls]):
+                if knob == "winter_only":
+                    state[knob] = not state[knob] if r.random() < 0.8 else state[knob]
+                else:
+                    state[knob] = r.choice([1, 2, 3, 4])
+                if cls == "MutualInfo" and r.random() < 0.7:
+                    return (knob, state[knob], False)      # dump=False (non-default)
+                return (knob, state[knob])
+        ops = [(k, f32(v)) if k == "T" else (k, v)
+               for k, v in gen_ops(rng, S0, M, nops, 1.0, regen)]
     else:
         nl = bool(fixed["non_local"])
         init, ops = ops_of([fixed["init"]])[0], ops_of(fixed["ops"])
@@ -446,17 +594,27 @@ def make_subclass_case(rng, nprng, cls, nops, fixed=None):
               "similarity_in": None if sim_in is None else sim_in.tolist(),
               "stored_similarity": S0.tolist(), "lat": probe.grid.lat_sequence().tolist(),
               "lon": probe.grid.lon_sequence().tolist(), "directed": directed, "non_local": nl,
-              "init": list(init), "ops": [list(o) for o in ops]}
+              "init": list(init), "ops": [op_repr(o) for o in ops]}
     return {"cls": cls, "builder": builder, "S0": S0, "grid": probe.grid, "d32": d32, "d64": d64,
             "directed": directed, "nl": nl, "init": init, "ops": ops, "tags": tags,
             "replay": replay}
 
 
 def request_of(case):
+    """the history as a request to the model; the similarity of every regeneration op is the
+    one the object stored afterwards (`case["mats"]`, filled by run_history)"""
     N = case["S0"].shape[0]
-    return ("hist {} {} {} {} {} {} {}".format(
+    mats, toks, stored = [], [], list(case["mats"])
+    for o in case["ops"]:
+        if o[0] == "R":
+            if not stored:
+                break                     # the history raised before this op
+            o = ("R", stored.pop(0))
+        toks.append(enc_op(o, mats))
+    return ("hist {} {} {} {} {} {} {} {}".format(
         N, int(case["directed"]), int(case["nl"]), enc_mat(case["S0"]), enc_mat(case["d32"]),
-        enc_op(case["init"]), ",".join(enc_op(o) for o in case["ops"]) or "-"))
+        enc_op(case["init"]), ",".join(toks) or "-",
+        "@".join(enc_mat(m) for m in mats) or "-"))
 
 
 def exercise(ctx, case, reqs, impl, kept):
@@ -468,12 +626,19 @@ def exercise(ctx, case, reqs, impl, kept):
     for st in raw:
         if st is None:
             break
-        if st["nl"] and near_tie(case["S0"], case["d32"], st["theta"]):
+        if st["nl"] and near_tie(st["S"], case["d32"], st["theta"], case.get("scale", 1.0)):
             skip = True
         oracle_state(ctx, case, st, prev)
         prev = st
-    if net is not None and raw and raw[-1] is not None:
+    if net is not None and raw and raw[-1] is not None and not case.get("nonfinite"):
         oracle_twin(ctx, case, net, raw[-1])
+    # the caller's array is never modified (and never aliased by the stored similarity)
+    for arr, copy in case.get("held", []):
+        if not np.array_equal(np.asarray(arr, dtype=float), copy):
+            ctx.fail({"class": "ClimateNetwork", "kind": "caller-array-modified",
+                      "layout": case.get("layout")},
+                     "the similarity array handed to the constructor was modified by the library",
+                     case["replay"])
     t = case["tags"]
     N = case["S0"].shape[0]
     ctx.count(f"N={N}" if N <= 8 else "N>8")
@@ -485,21 +650,39 @@ def exercise(ctx, case, reqs, impl, kept):
     ctx.count("init=" + case["init"][0] + (",non_local" if case["nl"] else ""))
     for o in case["ops"]:
         ctx.count("op=" + o[0])
+    if case.get("nonfinite"):
+        ctx.count(f"regenerated similarity not finite:{case.get('cls')} (not judged)")
+        skip = True
+    if "layout" in case:
+        ctx.count("caller-array=" + case["layout"])
+    if case.get("scale", 1.0) != 1.0:
+        ctx.count("rescaled by 2^%d" % round(math.log2(case["scale"])))
     for n, s in enumerate(states):
         if s.startswith("raise:"):
             ctx.count(s)
-            if N >= 2:
-                op = ([case["init"]] + list(case["ops"]))[n]
+            op = ([case["init"]] + list(case["ops"]))[n]
+            if op[0] == "R" and isinstance(op[1], tuple):
+                skip = True
+                if case.get("cls") == "MutualInfo" and len(op[1]) == 2:
+                    # default dump=True: not an estimator problem
+                    ctx.fail({"class": "MutualInfo", "kind": "raises", "error": s[6:],
+                              "call": "setter:set_winter_only(dump=True)"},
+                             f"MutualInfoClimateNetwork.set_winter_only({op[1][1]}) raised {s[6:]}",
+                             dict(case["replay"], failing_call=op_repr(op), call_index=n))
+                else:
+                    # the estimator of the subclass failed on this data (C10's business)
+                    ctx.count(f"regenerate-raises:{case.get('cls')}:{s[6:]} (not judged)")
+            elif N >= 2:
                 ctx.fail({"class": case.get("cls", "ClimateNetwork"), "kind": "raises",
                           "error": s[6:], "call": ("constructor:" if n == 0 else "setter:") + op[0]},
                          f"{'constructor' if n == 0 else 'setter'} with "
-                         f"{'threshold' if op[0] == 'T' else 'link_density' if op[0] == 'D' else 'non_local'}"
-                         f"={op[1]} raised {s[6:]} on a valid {N}-node input",
-                         dict(case["replay"], failing_call=list(op), call_index=n))
+                         f"{'threshold' if op[0] == 'T' else 'link_density' if op[0] == 'D' else 'similarity' if op[0] == 'R' else 'non_local'}"
+                         f"={op_repr(op)[1]} raised {s[6:]} on a valid {N}-node input",
+                         dict(case["replay"], failing_call=op_repr(op), call_index=n))
     nontriv = N >= 2 and any(
         st is not None and 0 < int(np.count_nonzero(st["A"])) < N * (N - 1) for st in raw)
     canon = (case.get("cls", ""), N, case["S0"].tobytes().hex(), case["directed"], case["nl"],
-             enc_op(case["init"]), [enc_op(o) for o in case["ops"]],
+             op_key(case["init"]), [op_key(o) for o in case["ops"]],
              case["replay"]["lat"], case["replay"]["lon"])
     ctx.case(canon, nontriv, case["replay"] if N <= 4 else None)
     if skip:
@@ -554,6 +737,8 @@ def regenerate_histories(ctx, rng, nprng, quick):
             grid = GeoGrid(np.arange(T, dtype=float), g0.lat_sequence(), g0.lon_sequence(),
                            silence_level=3)
             nl = rng.random() < 0.6
+            if name == "MutualInfo":
+                scratch_cwd()
             thr = rng.choice([0.25, 0.375, 0.5])
             v0, v1 = {"winter_only": (False, True), "max_delay": (2, 4),
                       "directed": (False, True)}[knob]
@@ -573,7 +758,10 @@ def regenerate_histories(ctx, rng, nprng, quick):
                         net.set_threshold(t2)
                         hist.append(["set_threshold", t2])
                         thr = t2
-                    getattr(net, "set_" + knob)(v1)
+                    if name == "MutualInfo":
+                        net.set_winter_only(v1, dump=False)
+                    else:
+                        getattr(net, "set_" + knob)(v1)
                     hist.append(["set_" + knob, v1])
                     if rng.random() < 0.5:
                         d = rng.choice([0.3, 0.5, 0.7])
@@ -609,21 +797,123 @@ def regenerate_histories(ctx, rng, nprng, quick):
                     break
 
 
+def direct_calls(ctx, rng, quick):
+    """`_calculate_threshold_adjacency` / `_calculate_non_local_adjacency` called directly:
+    arbitrary *signed* matrices and thresholds in both float widths, non-default weight
+    parameters `a`, `d_min` (model: `thresholdAdjacency`; oracle: the link rule itself)"""
+    reqs, impl = [], []
+    weights_ok = []
+    for _ in range(150 if quick else 1500):
+        N = rng.choice([0, 1, 2, 3, 4, 5, 6, 9])
+        # the host object only lends its grid (N < 2 cannot be constructed: ZeroDivisionError)
+        grid = gen_grid(rng, max(N, 2))
+        net = build(grid, np.eye(max(N, 2)), ("T", 0.5), False, False)
+        scale = 2.0 ** rng.choice([0, 0, 3, -30, 40])
+        W = (gen_sim(rng, N)[0] if N else np.zeros((0, 0))) * scale
+        thr = gen_threshold(rng, W, scale) * rng.choice([1, 1, -1])
+        Wd = W.astype(rng.choice([np.float32, np.float64]))
+        nonloc = N >= 2 and rng.random() < 0.4
+        with contextlib.redirect_stdout(io.StringIO()):
+            if nonloc:
+                a_, dmin = rng.choice([(20, 0.05), (30, 0.2), (5, 0.0), (100, 0.5), (1, 1.0)])
+                # the documented weight with these parameters, evaluated as numpy does
+                d32 = np.asarray(0.5 * (np.tanh(a_ * (grid.angular_distance() - dmin)) + 1))
+                weights_ok.append(bool(np.all((d32 >= 0) & (d32 <= 1))))
+                Wm = np.array(Wd * d32, dtype=float)      # what is thresholded
+                diff = np.abs(Wm - thr)
+                if np.any((diff > 0) & (diff <= 1e-6 * max(abs(thr), 1e-3 * scale))):
+                    ctx.count("direct: non_local near-tie (skipped)")
+                    continue
+                A = net._calculate_non_local_adjacency(Wd, thr, a=a_, d_min=dmin)
+                ctx.count(f"direct: non_local a={a_} d_min={dmin}")
+            else:
+                A = net._calculate_threshold_adjacency(Wd, thr)
+                Wm = W
+                ctx.count("direct: threshold_adjacency " + Wd.dtype.name)
+        A = np.asarray(A)
+        exp = np.array([[int(i != j and fr(Wm[i, j]) > fr(thr)) for j in range(N)]
+                        for i in range(N)]).reshape(N, N)
+        if not np.array_equal(A, exp):
+            ctx.fail({"class": "ClimateNetwork", "kind": "link-rule-direct", "non_local": nonloc},
+                     "direct call of the adjacency computation disagrees with "
+                     "`i != j and W[i,j] > threshold`",
+                     {"N": N, "W": Wm.tolist(), "threshold": thr, "got": A.tolist(),
+                      "lat": grid.lat_sequence().tolist(), "lon": grid.lon_sequence().tolist()})
+        reqs.append(f"adj {N} {enc_mat(Wm)} {enc_fr(fr(thr))}")
+        impl.append(",".join(str(int(v)) for v in A.flatten()) or "-")
+    ctx.correspond("Lean thresholdAdjacency == _calculate_(threshold|non_local)_adjacency on "
+                   "signed matrices, non-default a / d_min", reqs, impl)
+    ctx.obligation("distance weights 0.5*(tanh(a(d-d_min))+1) lie in [0,1] (hypothesis of "
+                   "nnz_non_local_le / density_le_request; theorem dampOf_mem_unit)",
+                   "trusted-base-probe", all(weights_ok), "")
+
+
+def shared_arrays(ctx, rng, quick):
+    """oracle only: two live networks sharing one array (the second is built from the array the
+    first one *stores*); setter histories on either must not disturb the other"""
+    for _ in range(40 if quick else 400):
+        N = rng.choice([3, 4, 5, 6])
+        c1 = make_case(rng, N, 0)
+        try:
+            n1 = build(c1["grid"], c1["S0"], c1["init"], c1["nl"], c1["directed"])
+            stored = n1.similarity_measure()
+            n2 = build(c1["grid"], stored, ("T", float(np.median(stored))), False,
+                       c1["directed"], layout="as-is")
+        except Exception:  # noqa
+            continue
+        before1 = (state_of(n1), np.array(stored, dtype=float))
+        ops = gen_ops(rng, c1["S0"], N, rng.randrange(2, 6), c1["scale"])
+        hist = []
+        ok = True
+        for o in ops:
+            tgt = rng.choice([1, 2])
+            try:
+                apply_op(n1 if tgt == 1 else n2, o)
+            except Exception:  # noqa
+                ok = False
+                break
+            hist.append([tgt] + op_repr(o))
+        ctx.count("shared-array histories")
+        if not ok:
+            continue
+        if not np.array_equal(np.asarray(n1.similarity_measure(), dtype=float), before1[1]) or \
+                not np.array_equal(np.asarray(n2.similarity_measure(), dtype=float), before1[1]):
+            ctx.fail({"class": "ClimateNetwork", "kind": "stored-similarity-modified"},
+                     "a setter modified the stored similarity matrix (shared by two networks)",
+                     dict(c1["replay"], history=hist))
+            continue
+        for n, lab in ((n1, "first"), (n2, "second")):
+            tw = build(c1["grid"], c1["S0"], ("T", n.threshold()), bool(n.non_local()),
+                       c1["directed"])
+            if state_of(tw) != state_of(n):
+                ctx.fail({"class": "ClimateNetwork", "kind": "shared-array-stale"},
+                         f"{lab} of two networks sharing a similarity array differs from a fresh "
+                         "network with its reported settings",
+                         dict(c1["replay"], history=hist, observed=state_of(n),
+                              fresh=state_of(tw)))
+        ctx.case(("shared", c1["S0"].tobytes().hex(), str(hist)), True, None)
+
+
 def run(ctx):
     rng = ctx.rng
     quick = ctx.tier == "quick"
-    ctx.rule = ("ClimateNetwork objects over dyadic (k/16) similarity matrices, N in 1..12 "
-                "(thorough: ..24), symmetric/asymmetric, diagonal maximal/zero/random/negative, "
-                "ties, directed on/off, non_local on/off over clustered grids, built by threshold "
-                "or link density, followed by random set_threshold/set_link_density/set_non_local "
-                "histories; distinct = distinct (matrix, grid, flags, history); non-trivial = some "
-                "observed state has a network that is neither empty nor complete")
+    ctx.rule = ("ClimateNetwork objects over dyadic (k/16 times a power of two 2^-60..2^60) "
+                "similarity matrices handed over as float64/float32/Fortran/strided/read-only "
+                "arrays, N in 1..12 (thorough: ..24), symmetric/asymmetric, constant matrices, "
+                "diagonal maximal/zero/random/negative, ties, directed on/off, non_local on/off "
+                "over clustered grids, built by threshold or link density (incl. extreme values), "
+                "followed by random set_threshold/set_link_density/set_non_local/"
+                "_regenerate_network histories; the data-driven subclasses incl. their "
+                "similarity-re-deriving setters; distinct = distinct (matrix, grid, flags, "
+                "history); non-trivial = some observed state has a network that is neither empty "
+                "nor complete")
     ctx.trusted = common.DEFAULT_TRUSTED + [
-        "IEEE double evaluation of int((1-rho)*len) lies within one of the exact value "
-        "(theorems hold for every index in that interval; the model evaluates it in Lean Float "
-        "and the correspondence compares it with CPython)",
+        "CPython evaluates int((1-rho)*len) with two IEEE-754 binary64 round-to-nearest-even "
+        "operations (modelled exactly in rational arithmetic by rn53/ieeeIndex; theorem "
+        "ieeeIndex_bounds; compared with CPython on every run)",
         "GeoGrid.angular_distance and the float32 tanh weight are taken from numpy (the model "
-        "receives the weight matrix; the oracle recomputes it in float64 with a 1e-4 margin)",
+        "receives the weight matrix; the oracle recomputes it in float64 with a 1e-4 margin; "
+        "that the weights lie in [0,1] is checked on every grid)",
     ]
     ctx.proofs()
 
@@ -650,6 +940,8 @@ def run(ctx):
     scratch_cwd()     # MutualInfo reads/writes a file in the cwd
     for cls in SUBCLASSES:
         for _ in range(15 if quick else 150):
+            if cls == "MutualInfo":
+                scratch_cwd()   # a failed dump leaves an empty file that breaks later objects
             with contextlib.redirect_stdout(io.StringIO()):
                 case = make_subclass_case(rng, nprng, cls, rng.choice([1, 3, 6]))
             if case is None:
@@ -662,7 +954,7 @@ def run(ctx):
     ctx.extra["histories_compared"] = len(reqs)
     ctx.extra["states_compared"] = sum(s.count(";") + 1 for s in impl)
 
-    # ---------------- threshold_from_link_density alone, float index vs CPython ------------
+    # ---------------- threshold_from_link_density alone, IEEE index vs CPython --------------
     treqs, timpl = [], []
     for _ in range(150 if quick else 1500):
         N = rng.choice(sizes)
@@ -674,24 +966,30 @@ def run(ctx):
             th = enc_fr(fr(net.threshold_from_link_density(rho)))
         except Exception as e:  # noqa
             th = "raise:" + type(e).__name__
-        treqs.append(f"tfld {N} {enc_mat(np.abs(S0))} {bits(rho)}")
+        treqs.append(f"tfld {N} {enc_mat(np.abs(S0))} {enc_fr(fr(rho))}")
         timpl.append(th)
         ctx.count("tfld")
-    outside = []
-    eps = Fraction(1, 10 ** 9)
-    for _ in range(300 if quick else 3000):
-        ln = rng.choice([2, 6, 12, 20, 30, 56, 90, 132, 1000, 9900, 999000])
+    # the two IEEE roundings of int((1-rho)*len): rational model rn53 and Lean Float vs CPython
+    for _ in range(400 if quick else 4000):
+        ln = rng.choice([2, 6, 12, 20, 30, 56, 90, 132, 552, 1000, 9900, 999000, 2 ** 31 - 1,
+                         2 ** 52 + 1, rng.randrange(1, 10 ** 6)])
         rho = rng.choice([rng.randrange(0, ln + 1) / ln, rng.random(),
-                          rng.randrange(0, 101) / 100])
+                          rng.randrange(0, 101) / 100, gen_density(rng, 5),
+                          1 - rng.random() * 2.0 ** -rng.randrange(1, 60),
+                          rng.random() * 2.0 ** -rng.randrange(1, 1000)])
         k = int((1 - rho) * ln)
-        treqs.append(f"index {bits(rho)} {ln}")
-        timpl.append(str(k))
-        x = (1 - Fraction(rho)) * ln
-        if not (x - 1 - eps <= k <= x + eps):
-            outside.append((rho, ln, k))
-        ctx.count("float-index")
-    ctx.correspond("threshold_from_link_density and IEEE index evaluation", treqs, timpl)
+        treqs.append(f"index {enc_fr(fr(rho))} {bits(rho)} {ln}")
+        timpl.append(f"{k}|{k}")
+        ctx.count("ieee-index")
+    for _ in range(200 if quick else 2000):
+        # rn53 alone against CPython's correctly rounded int/int division
+        p_, q_ = rng.randrange(1, 2 ** rng.randrange(1, 120)), \
+            rng.randrange(1, 2 ** rng.randrange(1, 120))
+        treqs.append(f"rn53 {enc_fr(Fraction(p_, q_))}")
+        timpl.append(enc_fr(fr(p_ / q_)))
+        ctx.count("rn53")
+    ctx.correspond("threshold_from_link_density, IEEE index evaluation, binary64 rounding",
+                   treqs, timpl)
+    direct_calls(ctx, rng, quick)
+    shared_arrays(ctx, rng, quick)
     regenerate_histories(ctx, rng, nprng, quick)
-    ctx.obligation("IEEE evaluation of int((1-rho)*len) lies in [x-1-eps, x+eps], eps=1e-9 "
-                   "(index hypotheses of density_le_request / density_gap_le_ties)",
-                   "trusted-base-probe", not outside, repr(outside[:5]))
